@@ -189,7 +189,7 @@ class _SymNum:
             pv = _pin(self.e)
             if pv is not None:
                 return pv == o
-            if to is int and type(self) is SymInt:
+            if to is int and isinstance(self, SymInt):
                 return SymBool(eq_const(self.e, o), (self.e, o, True))
         elif to not in _SYMNUM:
             if not isinstance(o, (int, float, Fraction, SymBool, _SymNum)):
@@ -205,7 +205,7 @@ class _SymNum:
             pv = _pin(self.e)
             if pv is not None:
                 return pv != o
-            if to is int and type(self) is SymInt:
+            if to is int and isinstance(self, SymInt):
                 return SymBool(z3.Not(eq_const(self.e, o)), (self.e, o, False))
         oe = _num(o)
         if oe is None:
@@ -343,6 +343,27 @@ class SymInt(_SymNum):
 
     def __ceil__(self):
         return self
+
+
+class EagerInt(SymInt):
+    """SymInt whose comparisons fork at once and return plain booleans.  For code that inspects the *type* of a
+    comparison result (`type(x) is bool`) or returns the operand of `and` / `or`: a lazy SymBool would leak there."""
+    __slots__ = ()
+
+    def __eq__(self, o):
+        r = SymInt.__eq__(self, o)
+        return bool(r)
+
+    def __ne__(self, o):
+        r = SymInt.__ne__(self, o)
+        return bool(r)
+
+    def __hash__(self):
+        return SymInt.__hash__(self)
+
+    def _cmp(self, o, f):
+        r = SymInt._cmp(self, o, f)
+        return r if r is NotImplemented else bool(r)
 
 
 class SymReal(_SymNum):
